@@ -47,7 +47,7 @@ def matrix(fname, f, args, x_passthrough, fails, where, has_passthrough, kw_defa
     """The mode matrix for one function and one input."""
     kw_default = kw_default or {}
     shown = f"{fname}{args!r}"
-    d = call(f, *args, **kw_default) if fname != "parse" else call(f, *args, strict=False)
+    d = call(f, *args, **kw_default)      # the default call: no reporting flag given at all (also for parse)
     if d[0] == "e":
         fails.append((f"default-mode-raises/{fname}/{type(d[1]).__name__}", f"{where}: {shown} raised {type(d[1]).__name__} in default mode"))
         return
